@@ -1144,6 +1144,13 @@ int main(int argc, char *argv[])
    else set_auto_spurious_weights(testS,testwc,testeq);
  }
 
+ if (!automatic && !bmax_set && tmax==0 && imax==0) {
+   // no stopping criterion given: apply the documented default, bmult=12
+   int nq=0;
+   for (i=0; i<N; i++) if (testeq[i]==i+1 && (testwc[i]>i+1 || testwc[i]==-1)) nq++;
+   bmax = bmult*nq+1;
+ }
+
  constrain(testS,testwc,testeq);
  if (!test_consistency(testS,testSt,testwc,testeq)) {
      fprintf(stderr,"ERROR: input files have non-explicit implications.\n\n"); exit(-1); 
